@@ -167,7 +167,7 @@ func genC06(t *rapid.T) C06Case {
 			op.Sess = rapid.SampledFrom([]string{"live", "live", "live", "none", "never", "garbage", "dup"}).Draw(t, "sess")
 			op.Accept = rapid.SampledFrom([]string{"", "", "-", "*/*", "text/event-stream", "garbage/;;q=x", "application/json;q=0"}).Draw(t, "accept")
 			op.CT = rapid.SampledFrom([]string{"", "", "-", "text/plain", "application/x-www-form-urlencoded", "\x7f"}).Draw(t, "ct")
-			op.LastEv = rapid.SampledFrom([]string{"", "", "evt-1-1", "garbage\x01", strings.Repeat("9", 300)}).Draw(t, "lastev")
+			op.LastEv = rapid.SampledFrom([]string{"", "", "evt-1-1", "garbage\x01", strings.Repeat("9", 300), "evt-17", "evt-", "evt-1759000000000", "evt--", "evt-1-x", "evt-x-1", "-", "evt-99999999999999999999-1"}).Draw(t, "lastev")
 			op.Vanish = rapid.Bool().Draw(t, "vanish")
 			op.Chunked = rapid.IntRange(0, 3).Draw(t, "chunked") == 0
 		}
